@@ -1,4 +1,5 @@
-// C12 replay helper: one input through the same judgement as the explorers.
+// C12 replay helper: one input through the same judgement as the explorers (same watchdog: a hang or a
+// trap reproduces as a V line and exit code 86; built with -DC12_UBCHECK it also reproduces ub-report).
 // usage: c12_single prime N [N...] (is_prime + find_prime_factor against the 12-base oracle)
 //        c12_single square N       (is_perfect_square against exact isqrt; informational)
 #pragma once
@@ -10,6 +11,7 @@ inline int single_main(int argc, char **argv) {
     const std::string mode = argv[1];
     const u64 n = std::strtoull(argv[2], nullptr, 10);
     Tally t;
+    ub_hook_selftest();
     if (mode == "prime") {
         for (int i = 2; i < argc; ++i)
             check_n(std::strtoull(argv[i], nullptr, 10), "replay", t, -1, true);
